@@ -457,12 +457,26 @@ func main() {
 				}
 				return
 			}
+			usedScript, usedLam := "", false
+			defer func() {
+				if *tier == "thorough" && j.o.Res.Status == "unsat" && usedScript != "" {
+					who, ans := CrossCheck(usedScript, j.o.Res.Solver, usedLam, 60)
+					switch ans {
+					case "unsat":
+						j.o.Cross = who
+					case "sat":
+						j.o.Res.Status = "error"
+						j.o.Res.Output = "solver disagreement: " + j.o.Res.Solver + " answered unsat, " + who + " answered sat"
+					}
+				}
+			}()
 			if sscript != "" {
 				// the two-step cone of influence, quantifier-free: unsat is conclusive
 				r := Solve(sscript, nil, 6, slam)
 				if r.Status == "unsat" {
 					r.Solver += " (shallow cone)"
 					j.o.Res = r
+					usedScript, usedLam = sscript, slam
 					return
 				}
 			}
@@ -473,16 +487,19 @@ func main() {
 				if r.Status == "unsat" {
 					r.Solver += " (ground instances)"
 					j.o.Res = r
+					usedScript, usedLam = gscript, glam
 					return
 				}
 				if r.Status == "sat" && timeout <= 60 {
 					// the instantiated VC has a model: the quantified VC is rarely
 					// provable then; give it a third of the budget in the quick tier
 					j.o.Res = Solve(script, probes, timeout/3, lam)
+					usedScript, usedLam = script, lam
 					return
 				}
 			}
 			j.o.Res = Solve(script, probes, timeout, lam)
+			usedScript, usedLam = script, lam
 		}(j, script, gscript, sscript, probes, lam, glam, slam)
 	}
 	wg.Wait()
